@@ -2,6 +2,7 @@ package c09
 
 import (
 	"context"
+	"errors"
 	"fmt"
 	"io"
 	"math"
@@ -12,6 +13,7 @@ import (
 	"time"
 
 	"go.opentelemetry.io/otel/attribute"
+	"go.opentelemetry.io/otel/codes"
 	"go.opentelemetry.io/otel/sdk/resource"
 	sdktrace "go.opentelemetry.io/otel/sdk/trace"
 	"go.opentelemetry.io/otel/trace"
@@ -58,6 +60,69 @@ type Step struct {
 	// context. Every span the SDK hands out, recording or dropped, leads back
 	// to the SDK's provider.
 	ViaSpan bool `json:"via_span,omitempty"`
+	// StartTS (start steps) / EndTS (end steps): an explicit timestamp handed
+	// to Start / End through trace.WithTimestamp. The statement's coupling of
+	// decision and export holds for every started span, whatever times its
+	// caller claims for it (instantaneous spans, replayed spans with skewed
+	// clocks, an end before the start).
+	StartTS TSpec `json:"start_ts"`
+	EndTS   TSpec `json:"end_ts"`
+	// Muts (end steps): what the program does to the span right before it
+	// ends it (see applyMut); EndStack: End(WithStackTrace(true)).
+	Muts     []string `json:"muts,omitempty"`
+	EndStack bool     `json:"end_stack,omitempty"`
+}
+
+// TSpec is a caller-supplied timestamp as data.
+//
+//	""     none (the SDK reads the clock)
+//	"abs"  time.Unix(0, N)
+//	"zero" the zero time.Time, passed explicitly (documented as "not set")
+//	"now"  (start) time.Now() + N nanoseconds
+//	"rel"  (end) the span's start time + N nanoseconds
+type TSpec struct {
+	Mode string `json:"mode,omitempty"`
+	N    int64  `json:"n,omitempty"`
+}
+
+var absNanos = []int64{0, 1, -1, 1_000_000_000_000_000_000, 1_715_947_200_000_000_000, 4_102_444_800_000_000_000, math.MaxInt64, math.MinInt64}
+var relNanos = []int64{0, 0, 0, 1, -1, 1000, -1000, 1_000_000_000, -1_000_000_000, 3_600_000_000_000, -3_600_000_000_000}
+
+func genTSpec(t *rapid.T, modes []string, label string) TSpec {
+	ts := TSpec{Mode: rapid.SampledFrom(modes).Draw(t, label+"_mode")}
+	switch ts.Mode {
+	case "abs":
+		if rapid.Bool().Draw(t, label+"_abs_table") {
+			ts.N = rapid.SampledFrom(absNanos).Draw(t, label+"_abs")
+		} else {
+			ts.N = rapid.Int64().Draw(t, label+"_abs_any")
+		}
+	case "now", "rel":
+		if rapid.IntRange(0, 3).Draw(t, label+"_rel_table") > 0 {
+			ts.N = rapid.SampledFrom(relNanos).Draw(t, label+"_rel")
+		} else {
+			ts.N = rapid.Int64Range(-4_000_000_000_000, 4_000_000_000_000).Draw(t, label+"_rel_any")
+		}
+	}
+	return ts
+}
+
+var startTSModes = []string{"", "", "", "", "", "abs", "abs", "now", "zero"}
+var endTSModes = []string{"", "", "", "", "rel", "rel", "rel", "abs", "zero"}
+
+// option turns the spec into the WithTimestamp option (nil: none given).
+func (ts TSpec) option(spanStart time.Time) (trace.SpanEventOption, bool) {
+	switch ts.Mode {
+	case "abs":
+		return trace.WithTimestamp(time.Unix(0, ts.N)), true
+	case "zero":
+		return trace.WithTimestamp(time.Time{}), true
+	case "now":
+		return trace.WithTimestamp(time.Now().Add(time.Duration(ts.N))), true
+	case "rel":
+		return trace.WithTimestamp(spanStart.Add(time.Duration(ts.N))), true
+	}
+	return nil, false
 }
 
 // PipeCase is one generated input of the pipeline check.
@@ -190,6 +255,43 @@ func genStartFields(t *rapid.T, s *Step) {
 	if rapid.IntRange(0, 5).Draw(t, "has_link") == 5 {
 		s.Links = []SC{genSC(t, "link")}
 	}
+	s.StartTS = genTSpec(t, startTSModes, "start_ts")
+}
+
+var spanMuts = []string{"status_error", "status_ok", "status_unset", "name_empty", "name", "event", "record_error", "attrs", "link"}
+
+func genEndFields(t *rapid.T, s *Step) {
+	s.EndTS = genTSpec(t, endTSModes, "end_ts")
+	if rapid.IntRange(0, 2).Draw(t, "has_muts") == 0 {
+		s.Muts = rapid.SliceOfN(rapid.SampledFrom(spanMuts), 1, 3).Draw(t, "muts")
+	}
+	s.EndStack = rapid.IntRange(0, 7).Draw(t, "end_stack") == 0
+}
+
+// applyMut is what instrumentation does to a span between Start and End;
+// none of it changes the sampling decision, so none of it may change whether
+// the span reaches the exporters.
+func applyMut(sp trace.Span, m string) {
+	switch m {
+	case "status_error":
+		sp.SetStatus(codes.Error, "boom")
+	case "status_ok":
+		sp.SetStatus(codes.Ok, "")
+	case "status_unset":
+		sp.SetStatus(codes.Unset, "ignored")
+	case "name_empty":
+		sp.SetName("")
+	case "name":
+		sp.SetName("renamed")
+	case "event":
+		sp.AddEvent("ev", trace.WithAttributes(attribute.Int("i", 1)))
+	case "record_error":
+		sp.RecordError(errors.New("recorded"), trace.WithStackTrace(true))
+	case "attrs":
+		sp.SetAttributes(attribute.String("m.k", "v"), attribute.Bool("m.b", true))
+	case "link":
+		sp.AddLink(trace.Link{SpanContext: sp.SpanContext()})
+	}
 }
 
 func genPipe(t *rapid.T) PipeCase {
@@ -269,6 +371,7 @@ func genPipe(t *rapid.T) PipeCase {
 			started++
 		case "end":
 			s.Of = rapid.IntRange(0, started-1).Draw(t, "end_of")
+			genEndFields(t, &s)
 		}
 		c.Steps = append(c.Steps, s)
 	}
@@ -512,6 +615,8 @@ type spanRec struct {
 	ended    bool
 	attrs    []attribute.KeyValue // sampler-provided
 	depth    int
+	start    time.Time // the span's start time as far as the harness knows it
+	how      string    // how it ended (for messages)
 }
 
 func decisionName(d sdktrace.SamplingDecision) string {
@@ -632,6 +737,15 @@ func runPipe(c PipeCase) ([]vk.Violation, vk.Info) {
 	if c.SeqIDs {
 		opts = append(opts, sdktrace.WithIDGenerator(&seqGen{tidSeed: c.TIDSeed, sidSeed: c.SIDSeed}))
 	}
+	procName := "simple"
+	switch {
+	case c.Batch == 1:
+		procName = "batch (flushed)"
+	case c.Batch == 2:
+		procName = "batch, blocking (flushed)"
+	case c.Syncer:
+		procName = "simple (WithSyncer)"
+	}
 	var tp *sdktrace.TracerProvider
 	if envMode {
 		if reported := withSamplerEnv(envName, envArg, func() { tp = sdktrace.NewTracerProvider(opts...) }); len(reported) > 0 {
@@ -669,8 +783,26 @@ func runPipe(c PipeCase) ([]vk.Violation, vk.Info) {
 			if sp.ended {
 				continue
 			}
-			sp.span.End()
+			for _, m := range st.Muts {
+				applyMut(sp.span, m)
+			}
+			info.ClassIf(len(st.Muts) > 0, "end:span_mutated_before_end")
+			var eo []trace.SpanEndOption
+			if o, ok := st.EndTS.option(sp.start); ok {
+				eo = append(eo, o)
+				info.Class("end:explicit_timestamp_" + st.EndTS.Mode)
+			}
+			if st.EndStack {
+				eo = append(eo, trace.WithStackTrace(true))
+			}
+			sp.span.End(eo...)
 			sp.ended = true
+			if ro, ok := sp.span.(sdktrace.ReadOnlySpan); ok && sp.decision != 0 {
+				stt, ett := ro.StartTime(), ro.EndTime()
+				sp.how = fmt.Sprintf("start time %s, end time %s, mutations before End %v, processor %s", stt.UTC().Format(time.RFC3339Nano), ett.UTC().Format(time.RFC3339Nano), st.Muts, procName)
+				info.ClassIf(sp.sampled && ett.Equal(stt), "end:sampled_span_end_time_equals_start_time")
+				info.ClassIf(sp.sampled && ett.Before(stt), "end:sampled_span_end_time_before_start_time")
+			}
 			info.ClassIf(sp.decision == 1, "end:record_only_span")
 			info.ClassIf(sp.decision == 0, "end:dropped_span")
 			if c.Batch != 0 {
@@ -685,7 +817,7 @@ func runPipe(c PipeCase) ([]vk.Violation, vk.Info) {
 			got := exp.bySpanID(sp.sc.SpanID())
 			switch {
 			case sp.sampled && len(got) != 1:
-				bad("sampled_not_exported", "step %d: span %s is sampled and was ended, the exporter holds %d copies of it", si, sp.sc.SpanID(), len(got))
+				bad("sampled_not_exported", "step %d: span %s is sampled and was ended (%s), the exporter holds %d copies of it", si, sp.sc.SpanID(), sp.how, len(got))
 			case !sp.sampled && len(got) != 0:
 				bad("exported_not_sampled", "step %d: span %s (decision %d) is not sampled but reached the exporter %d times", si, sp.sc.SpanID(), sp.decision, len(got))
 			}
@@ -742,6 +874,14 @@ func runPipe(c PipeCase) ([]vk.Violation, vk.Info) {
 		for _, l := range st.Links {
 			so = append(so, trace.WithLinks(trace.Link{SpanContext: l.build()}))
 		}
+		startAt := time.Now()
+		if o, ok := st.StartTS.option(startAt); ok {
+			so = append(so, o)
+			if st.StartTS.Mode == "abs" {
+				startAt = time.Unix(0, st.StartTS.N)
+			}
+			info.Class("start:explicit_timestamp_" + st.StartTS.Mode)
+		}
 
 		logBefore := len(r.log)
 		startTracer := tracer
@@ -765,7 +905,10 @@ func runPipe(c PipeCase) ([]vk.Violation, vk.Info) {
 			})
 		}
 		seg := r.log[logBefore:]
-		rec := &spanRec{span: span, ctx: sctx, sc: sc, psc: psc, decision: -1, depth: depth}
+		rec := &spanRec{span: span, ctx: sctx, sc: sc, psc: psc, decision: -1, depth: depth, start: startAt}
+		if ro, ok := span.(sdktrace.ReadOnlySpan); ok && span.IsRecording() {
+			rec.start = ro.StartTime()
+		}
 		spans = append(spans, rec)
 
 		pTIDValid := psc.TraceID() != (trace.TraceID{})
@@ -987,7 +1130,7 @@ func runPipe(c PipeCase) ([]vk.Violation, vk.Info) {
 					kind = "exported_not_ended"
 				}
 			}
-			bad(kind, "span %s (decision %d, sampled %v, ended %v) is held %d times by the exporter, expected %d", sp.sc.SpanID(), sp.decision, sp.sampled, sp.ended, n, want)
+			bad(kind, "span %s (decision %d, sampled %v, ended %v; %s) is held %d times by the exporter, expected %d", sp.sc.SpanID(), sp.decision, sp.sampled, sp.ended, sp.how, n, want)
 		}
 	}
 	exp.mu.Lock()
@@ -1058,7 +1201,7 @@ func TestPipeline(t *testing.T) {
 	vk.Run(t, vk.Spec[PipeCase]{
 		Property: "C09", Check: "pipeline",
 		Rule: "a sampler from the grammar {AlwaysSample, NeverSample, TraceIDRatioBased(r), ParentBased(root, 0..4 options, nested to depth 2), Scripted(Drop/RecordOnly/RecordAndSample + attributes + parent/replaced/empty tracestate), none configured}, every node behind a recording decorator; trees expressible as OTEL_TRACES_SAMPLER (always_on, always_off, traceidratio, parentbased_*) are, in about half of their cases, configured through the environment instead of WithSampler (ratio spelled in 'g'/'f'/'e' forms, signs, leading zeros, blanks; name in any letter case) and judged against the programmatic tree for the denoted ratio; " +
-			"a program of 1..40 steps {start root, start child of a started span, start under a supplied span context (remote or local, valid / zero trace ID / zero span ID, sampled or not, extra flag bits, tracestate), each optionally WithNewRoot, end a span}; simple processor, WithSyncer, or BatchSpanProcessor (blocking or not, flushed by the harness before every look at the exporter) + in-memory exporter; default or custom sequential ID generator; " +
+			"a program of 1..40 steps {start root, start child of a started span, start under a supplied span context (remote or local, valid / zero trace ID / zero span ID, sampled or not, extra flag bits, tracestate), each optionally WithNewRoot and optionally with an explicit start timestamp (any int64 unix nanos, the zero time, now +- up to 4000 s); end a span, optionally with an explicit end timestamp (start + {0, +-1ns .. +-1h}, any int64 unix nanos, the zero time), after 0..3 mutations {SetStatus, SetName, AddEvent, RecordError, SetAttributes, AddLink} and optionally WithStackTrace}; simple processor, WithSyncer, or BatchSpanProcessor (blocking or not, flushed by the harness before every look at the exporter) + in-memory exporter; default or custom sequential ID generator; " +
 			"non-trivial = some span is the child of a started span and at least two different sampling decisions occur; distinct = distinct case encodings",
 		Quick: 2000, Thorough: 100000,
 		Gen: genPipe, Run: runPipe,
